@@ -145,15 +145,20 @@ theorem posNodes_nodeRm {nodes : List CNode} (id key : String) (r : Res) (h : Po
 def relSt (tt : TermType) (i : CItem) (a : CApp) : String :=
   if i.ph = true then
     (if (isZero (some (prune (subX a.allocatedPh i.res))) &&
-         ((a.state == "Completing" && !a.stateTimer && !(tt == .replaced && i.release.isSome)) || a.state == "Failing" ||
+         ((a.state == "Completing" && !a.stateTimer && !(tt == .replaced && i.release.isSome)) ||
+          (a.state == "Failing" && isZero (some a.allocated)) ||
           a.state == "Resuming" ||
-          (isZero (some a.pending) && isZero (some a.allocated) && !(tt == .replaced && i.release.isSome)))) = true then
+          (isZero (some a.pending) && isZero (some a.allocated) && !(tt == .replaced && i.release.isSome) &&
+           a.state != "Failing"))) = true then
       (if (a.state == "Failing") = true then fireState a.state .fail
        else if (a.state == "Resuming") = true then fireState a.state .run
        else fireState a.state .complete)
     else a.state)
   else
-    (if (isZero (some a.pending) && isZero (some (prune (subX a.allocated i.res)))) = true then fireState a.state .complete
+    (if (isZero (some a.pending) && isZero (some (prune (subX a.allocated i.res)))) = true then
+      (if (a.state == "Failing") = true then
+        (if isZero (some a.allocatedPh) = true then fireState a.state .fail else a.state)
+       else fireState a.state .complete)
      else a.state)
 
 theorem relAppT_state (tt : TermType) (key : String) (i : CItem) (a : CApp) : (relAppT tt key i a).state = relSt tt i a := by
@@ -190,7 +195,7 @@ theorem relAppT_completing (tt : TermType) (key : String) (i : CItem) (a : CApp)
           have hC : (a.state == "Completing") = false := by rcases hs with e | e <;> rw [e] <;> decide
           rw [hC] at hc
           simp only [Bool.false_and, Bool.false_or, Bool.or_false, Bool.and_eq_true] at hc
-          exact Or.inr ⟨hc.2.1.1, hc.2.1.2⟩
+          exact Or.inr ⟨hc.2.1.1.1, hc.2.1.1.2⟩
     · exact Or.inl h
   | false =>
     simp only [hph, Bool.false_eq_true, if_false] at h ⊢
@@ -200,12 +205,15 @@ theorem relAppT_completing (tt : TermType) (key : String) (i : CItem) (a : CApp)
       exact Or.inr hc
     · exact Or.inl h
 
-/-- the application terminates only when its placeholder total is zero, or (real branch) from Completing -/
+/-- the application terminates only when its (new) placeholder total is zero — a placeholder that leaves, or (real branch)
+    the last real allocation of a Failing application without placeholders — or (real branch) from Completing -/
 theorem relAppT_terminated (tt : TermType) (key : String) (i : CItem) (a : CApp) (hnt : terminated a.state = false)
     (h : terminated (relAppT tt key i a).state = true) :
-    (i.ph = true ∧ isZero (some (relAppT tt key i a).allocatedPh) = true) ∨ (i.ph = false ∧ a.state = "Completing") := by
+    (i.ph = true ∧ isZero (some (relAppT tt key i a).allocatedPh) = true) ∨ (i.ph = false ∧ a.state = "Completing") ∨
+      (i.ph = false ∧ a.state = "Failing" ∧ isZero (some (relAppT tt key i a).pending) = true ∧
+        isZero (some (relAppT tt key i a).allocated) = true ∧ isZero (some (relAppT tt key i a).allocatedPh) = true) := by
   rw [relAppT_state] at h
-  rw [relAppT_allocatedPh]
+  rw [relAppT_allocatedPh, relAppT_pending, relAppT_allocated]
   unfold relSt at h
   cases hph : i.ph with
   | true =>
@@ -218,10 +226,62 @@ theorem relAppT_terminated (tt : TermType) (key : String) (i : CItem) (a : CApp)
   | false =>
     simp only [hph, Bool.false_eq_true, if_false] at h ⊢
     split at h
-    · rcases complete_terminated _ h with e | e
-      · exact Or.inr ⟨trivial, e⟩
-      · rw [hnt] at e; cases e
+    · rename_i hc
+      simp only [Bool.and_eq_true] at hc
+      split at h
+      · rename_i hF
+        split at h
+        · rename_i hz
+          exact Or.inr (Or.inr ⟨trivial, by simpa using hF, hc.1, hc.2, hz⟩)
+        · rw [hnt] at h; cases h
+      · rcases complete_terminated _ h with e | e
+        · exact Or.inr (Or.inl ⟨trivial, e⟩)
+        · rw [hnt] at e; cases e
     · rw [hnt] at h; cases h
+
+/-- a Failing application whose placeholder leaves: it is Failed exactly when that was the last placeholder and it holds
+    no real allocation; otherwise it stays Failing (and live) -/
+theorem relAppT_failing_ph (tt : TermType) (key : String) (i : CItem) (a : CApp) (hph : i.ph = true)
+    (hF : a.state = "Failing") :
+    (relAppT tt key i a).state =
+      if (isZero (some (relAppT tt key i a).allocatedPh) && isZero (some a.allocated)) = true then "Failed" else "Failing" := by
+  rw [relAppT_state, relAppT_allocatedPh]
+  unfold relSt
+  simp only [hph, if_true, hF]
+  cases isZero (some (prune (subX a.allocatedPh i.res))) <;> cases isZero (some a.allocated) <;> simp <;> decide
+
+/-- with a real allocation left, a Failing application stays Failing and live when a placeholder leaves -/
+theorem relAppT_failing_ph_stays (tt : TermType) (key : String) (i : CItem) (a : CApp) (hph : i.ph = true)
+    (hF : a.state = "Failing") (hreal : isZero (some a.allocated) = false) :
+    (relAppT tt key i a).state = "Failing" ∧ (relAppT tt key i a).live = true := by
+  have hs := relAppT_failing_ph tt key i a hph hF
+  rw [hreal, Bool.and_false] at hs
+  simp only [Bool.false_eq_true, if_false] at hs
+  refine ⟨hs, ?_⟩
+  rw [relAppT_live, ← relAppT_state tt key, hs]; decide
+
+/-- the last real allocation of a Failing application without placeholders (and without pending asks) makes it Failed and
+    not live; otherwise it stays Failing -/
+theorem relAppT_failing_real (tt : TermType) (key : String) (i : CItem) (a : CApp) (hph : i.ph = false)
+    (hF : a.state = "Failing") :
+    (relAppT tt key i a).state =
+      if (isZero (some a.pending) && isZero (some (relAppT tt key i a).allocated) && isZero (some a.allocatedPh)) = true
+      then "Failed" else "Failing" := by
+  rw [relAppT_state, relAppT_allocated]
+  unfold relSt
+  simp only [hph, Bool.false_eq_true, if_false, hF]
+  cases isZero (some a.pending) <;> cases isZero (some (prune (subX a.allocated i.res))) <;>
+    cases isZero (some a.allocatedPh) <;> simp <;> decide
+
+theorem relAppT_failing_real_failed (tt : TermType) (key : String) (i : CItem) (a : CApp) (hph : i.ph = false)
+    (hF : a.state = "Failing") (hp : isZero (some a.pending) = true)
+    (hreal : isZero (some (relAppT tt key i a).allocated) = true) (hz : isZero (some a.allocatedPh) = true) :
+    (relAppT tt key i a).state = "Failed" ∧ (relAppT tt key i a).live = false := by
+  have hs := relAppT_failing_real tt key i a hph hF
+  rw [hp, hreal, hz] at hs
+  simp only [Bool.and_self, if_true] at hs
+  refine ⟨hs, ?_⟩
+  rw [relAppT_live, ← relAppT_state tt key, hs]; decide
 
 /-- Completed is reached from Completing only -/
 theorem relAppT_completed (tt : TermType) (key : String) (i : CItem) (a : CApp)
@@ -245,7 +305,14 @@ theorem relAppT_completed (tt : TermType) (key : String) (i : CItem) (a : CApp)
   | false =>
     simp only [hph, Bool.false_eq_true, if_false] at h
     split at h
-    · exact (complete_completed _ h).symm
+    · by_cases hF : a.state = "Failing"
+      · rw [hF] at h
+        simp only [beq_self_eq_true, if_true] at h
+        split at h <;> exact absurd h (by decide)
+      · have hF' : (a.state == "Failing") = false := by simpa using hF
+        rw [hF'] at h
+        simp only [Bool.false_eq_true, if_false] at h
+        exact (complete_completed _ h).symm
     · exact Or.inl h
 
 /-- the members of the item list after an allocation was unbound, with every flag the invariants read -/
@@ -277,10 +344,11 @@ theorem appLife_relAppT (tt : TermType) (key : String) (i : CItem) (a : CApp) (h
       rcases hor with h | h
       · rw [relAppT_live, ← relAppT_state tt key] at h; simpa using h
       · exact h
-    rcases relAppT_terminated tt key i a (hla.termGone hlv) ht with ⟨_, h⟩ | ⟨hph, hc⟩
+    rcases relAppT_terminated tt key i a (hla.termGone hlv) ht with ⟨_, h⟩ | ⟨hph, hc⟩ | ⟨_, _, _, _, h⟩
     · exact z2 h y hy hyb
     · have := hla.completingNoReal hlv hc i him hbd
       rw [hph] at this; cases this
+    · exact z2 h y hy hyb
   · intro hst y hy hyb
     obtain ⟨x, hx, _, hp, _, hb⟩ := mem_relItems hy
     rw [hp]
@@ -455,7 +523,8 @@ theorem appNoPend_swapStartApp (realKey phKey node : String) (r : CItem) (a : CA
 
 /-- the state after the placeholder left (first half of `replApp`) -/
 def replSt1 (p : CItem) (a : CApp) : String :=
-  if (isZero (some (prune (subX a.allocatedPh p.res))) && (a.state == "Failing" || a.state == "Resuming")) = true then
+  if (isZero (some (prune (subX a.allocatedPh p.res))) &&
+      ((a.state == "Failing" && isZero (some a.allocated)) || a.state == "Resuming")) = true then
     (if (a.state == "Failing") = true then fireState a.state .fail else fireState a.state .run)
   else a.state
 
@@ -493,12 +562,29 @@ theorem replSt1_terminated (p r : CItem) (a : CApp) (hnt : terminated a.state = 
     exact hc.1
   · rw [hnt] at h; cases h
 
+/-- a Failing application whose placeholder is replaced: Failed exactly when that was the last placeholder and it holds no
+    real allocation (fix 81c5cb7); with a real allocation left it stays Failing, and live -/
+theorem replSt1_failing (p : CItem) (a : CApp) (hF : a.state = "Failing") :
+    replSt1 p a =
+      if (isZero (some (prune (subX a.allocatedPh p.res))) && isZero (some a.allocated)) = true then "Failed" else "Failing" := by
+  unfold replSt1
+  simp only [hF]
+  cases isZero (some (prune (subX a.allocatedPh p.res))) <;> cases isZero (some a.allocated) <;> simp <;> decide
+
+theorem replApp_failing_stays (p r : CItem) (a : CApp) (hF : a.state = "Failing") (hreal : isZero (some a.allocated) = false) :
+    replSt1 p a = "Failing" ∧ (replApp p r a).live = true := by
+  have hs := replSt1_failing p a hF
+  rw [hreal, Bool.and_false] at hs
+  simp only [Bool.false_eq_true, if_false] at hs
+  refine ⟨hs, ?_⟩
+  rw [replApp_live, hs]; decide
+
 theorem replSt1_completed (p : CItem) (a : CApp) (h : replSt1 p a = "Completed") : a.state = "Completed" := by
   unfold replSt1 at h
   split at h
   · rename_i hc
     simp only [Bool.and_eq_true, Bool.or_eq_true, beq_iff_eq] at hc
-    rcases hc.2 with e | e
+    rcases hc.2 with ⟨e, _⟩ | e
     · rw [e] at h; exact absurd h (by decide)
     · rw [e] at h; exact absurd h (by decide)
   · exact h
